@@ -29,7 +29,9 @@ Print Assumptions C13_atoi_itoa.
    names, which is reading decision 14: order is a permutation).  Premises: at least one column; names valid
    for qframe.New, distinct, without CR; strings without CR; ints in int64; columns of the frame's length;
    enum columns with declared values (strict) whose null cells come with EmptyNull or a declared empty string
-   (reading decision 13); the strconv hypotheses on FormatFloat/ParseFloat for non-NaN values.
+   (reading decision 13) and whose value lists name no value twice (enum_decl_nodup: the reader's enum factory
+   rejects a declaration with a repeated value, C13_duplicate_declaration_rejected; every enum column the factory
+   built has such a list); the strconv hypotheses on FormatFloat/ParseFloat for non-NaN values.
    Conclusion: ReadCSV (specification level: on the rows the character machine denotes; IgnoreEmptyLines =
    false — a one-column frame writes an empty cell as an empty line) with the frame's types, enum values,
    EmptyNull = e, and Headers(names) when Header(false) was used, returns the same columns in the same order
@@ -44,10 +46,18 @@ Theorem C13_roundtrip
   to_csv format_float f tc = Ok doc ->
   rt_premises e (frame_len f) wf = true ->
   forallb (fun nc => strict_enum (snd nc)) wf = true ->
+  forallb (fun nc => enum_decl_nodup (snd nc)) wf = true ->
   read_csv_spec atoi parse_float atob (read_conf_for e (tc_header tc) wf) doc
   = Ok (map (fun nc => (fst nc, norm_col e (snd nc))) wf).
 Proof. exact (roundtrip format_float parse_float float_roundtrip f tc wf doc e). Qed.
 Print Assumptions C13_roundtrip.
+
+(* the enum branch of columnToData rejects a declaration that lists a value twice, whatever the cells; hence a
+   column that was read has a duplicate-free declaration *)
+Theorem C13_duplicate_declaration_rejected (parse_float : bytes -> option N) e vals cells :
+  ~ NoDup vals -> column_to_data atoi parse_float atob e DEnum (Some vals) cells = Fail.
+Proof. exact (column_to_data_enum_duplicate_rejected parse_float e vals cells). Qed.
+Print Assumptions C13_duplicate_declaration_rejected.
 
 (* the premises are satisfiable (no float column, so the formatter is irrelevant): columns I (int), a name
    that needs quoting, S with a null, a quote, a delimiter, a line feed and an empty string, E (enum with
@@ -65,6 +75,7 @@ Example C13_roundtrip_example :
   iter_cols ex_f ex_tc = Ok ex_wf /\ to_csv (fun _ => []) ex_f ex_tc = Ok ex_doc /\
   rt_premises false (frame_len ex_f) ex_wf = true /\ rt_premises true (frame_len ex_f) ex_wf = true /\
   forallb (fun nc => strict_enum (snd nc)) ex_wf = true /\
+  forallb (fun nc => enum_decl_nodup (snd nc)) ex_wf = true /\
   read_csv_spec atoi (fun _ => None) atob (read_conf_for true false ex_wf) ex_doc
   = Ok (map (fun nc => (fst nc, norm_col true (snd nc))) ex_wf).
 Proof. vm_compute. repeat split. Qed.
@@ -94,6 +105,7 @@ Definition C13_nonstrict_enum_full_statement : Prop :=
   (forall n vals l, In (n, ColEnum vals l) wf -> vals = [] ->
      (length (nodup (list_eq_dec N.eq_dec) (map (fun o => match o with Some s => s | None => [] end) l))
       <= enum_max_cardinality)%nat) ->
+  (forall n vals l, In (n, ColEnum vals l) wf -> NoDup vals) ->
   exists g, read_csv_spec atoi parse_float atob (read_conf_for e (tc_header tc) wf) doc = Ok g /\
             map fst g = map fst wf.
 
